@@ -106,16 +106,16 @@ type h1Install struct {
 }
 
 type h1Env struct {
-	r      *simcore.Run
-	d      *simcore.Driver
-	sc     *simconsul.Server
-	relay  *h1Relay
-	ccfg   *config.Consul
-	cfg    *config.Config
-	first  chan bool
-	cur    uintptr
-	Inst   []h1Install
-	wb     *simhook.Task
+	r     *simcore.Run
+	d     *simcore.Driver
+	sc    *simconsul.Server
+	relay *h1Relay
+	ccfg  *config.Consul
+	cfg   *config.Config
+	first chan bool
+	cur   uintptr
+	Inst  []h1Install
+	wb    *simhook.Task
 }
 
 func tablePtr(t route.Table) uintptr { return reflect.ValueOf(t).Pointer() }
